@@ -194,11 +194,35 @@ def run(ctx):
             ctx, "Trace_Syncer", SYNC_TR, sp, "tr_sync", skey,
             "resend-sync trace", segment_op="reset", max_rejects=10)
     rej += sync_rej
+    # the syncer on its own, through scripted orders of resend / wait / ACK /
+    # NACK events around the resend timeout (the orders Syncer.tla
+    # distinguishes), validated by the same observer
+    rc, o = run_driver(ctx, binary, "TestC06Syncer", out, timeout=1800)
+    if rc != 0:
+        if not gbntrace.crash_report(ctx, o, "c06syncer"):
+            raise Infra("syncer driver failed:\n" + o[-2000:])
+    up = os.path.join(out, "c06syncer.ndjson")
+    unit_lines = unit_rej = 0
+    unit_scripts = 0
+    if os.path.exists(up) and os.path.getsize(up) > 0:
+        unit_scripts = sum(1 for x in open(up) if '"reset"' in x)
+
+        def ukey(ln, cur, idx):
+            j = idx
+            while j > 0 and cur[j].get("ev") != "reset":
+                j -= 1
+            what = "wait-never-ends" if ln.get("ev") == "pgEnd" else "wait-ends-without-cause-or-late"
+            return "syncer:unit:%s:loop%s" % (what, cur[j].get("loopMs"))
+        unit_lines, unit_rej, _ = linetrace.validate(
+            ctx, "Trace_Syncer", SYNC_TR, up, "tr_sync_unit", ukey,
+            "scripted syncer trace", segment_op="reset", max_rejects=6)
+    rej += unit_rej
     write_evidence(ctx, "model_checking", {
         "states": states, "transitions": trans,
         "traces_validated_against_impl": len(runs) - rej,
         "trace_lines": n,
         "sync_waits_validated": sync_waits, "sync_lines": sync_lines,
+        "syncer_scripts_validated": unit_scripts, "syncer_script_lines": unit_lines,
         "syncer_model_states": ctx.cov.get("syncer_model_states", 0),
         "evaluations": len(runs),
         "distinct_nontrivial": len({json.dumps(r["desc"], sort_keys=True) for r in runs}),
